@@ -551,7 +551,7 @@ def dominated(f, entry):
 
 
 if __name__ == "__main__":
-    rule.run("C19", check, "typestate+dataflow",
+    rule.run("C19", check, "other",
              "R-PANIC over the hand-written GSD parser with a grammar-shape typestate (pest grammar -> child-sequence automata -> abstract "
              "interpretation of MIR), path-sensitive Option guards, a provenance rule for the one integer addition; plus the legacy-commit "
              "overwrite rule and the keyword<->field tables.  Does not decide field-by-field equality with the file text.",
